@@ -71,6 +71,8 @@ fn quat_conjugate(q: Quat) -> Quat {
 }
 
 fn generate_origins() -> Vec<Origin> {
+    #[cfg(feature = "verif")]
+    crate::verif::point(crate::verif::Kind::InitRun, 1, 0);
     let mut origins = Vec::with_capacity(12);
     let mut origin_id: OriginId = 0;
 
@@ -144,6 +146,8 @@ fn generate_origins() -> Vec<Origin> {
 }
 
 pub fn get_origins() -> &'static Vec<Origin> {
+    #[cfg(feature = "verif")]
+    crate::verif::point(crate::verif::Kind::LazyAccess, 1, 0);
     ORIGINS.get_or_init(generate_origins)
 }
 
